@@ -75,17 +75,36 @@ class Plugin(HistPlugin):
 
     def extra_checks(self, rng, tier, seed):
         """Query consistency on the implementation: two filters whose datetimes denote the same
-        milliseconds must select the same documents through every reading entry point (find with
-        sort= and with a chained Cursor.sort(), cursor indexing, count_documents, distinct)."""
+        milliseconds must select the same documents through every filter-taking entry point: find
+        with sort= and with a chained Cursor.sort(), cursor indexing, count_documents, distinct,
+        update_many / update_one (matched), delete_many / delete_one (deleted, and what is left),
+        find_one_and_delete.  The datetime sits in a field, in _id itself, or inside a compound _id."""
         import copy
+        import datetime as _dt
         import mongomock
         n = 200 if tier == 'quick' else 4000
-        viol, probes = [], 0
+        viol, probes, where_n = [], 0, {'d': 0, '_id': 0, '_id.t': 0}
         for i in range(n):
             gen.DATE_MODE[0] = 'rich'
             try:
+                where = rng.choice(['d', 'd', '_id', '_id.t'])
                 dates = [gen.rich_date(rng) for _ in range(rng.choice([2, 3, 4]))]
-                docs = [{'_id': k + 1, 'd': d, 'r': rng.choice([1, 2, 3])} for k, d in enumerate(dates)]
+                if where != 'd':
+                    # keys must be distinct milliseconds
+                    seen, ds = set(), []
+                    for d in dates:
+                        nv = d if d.tzinfo is None else (d - d.utcoffset()).replace(tzinfo=None)
+                        ms = (nv - common.EPOCH) // _dt.timedelta(milliseconds=1)
+                        if ms not in seen:
+                            seen.add(ms)
+                            ds.append(d)
+                    dates = ds
+                if where == 'd':
+                    docs = [{'_id': k + 1, 'd': d, 'r': rng.choice([1, 2, 3]), 'k': k + 1} for k, d in enumerate(dates)]
+                elif where == '_id':
+                    docs = [{'_id': d, 'r': rng.choice([1, 2, 3]), 'k': k + 1} for k, d in enumerate(dates)]
+                else:
+                    docs = [{'_id': {'t': d, 'z': 1}, 'r': rng.choice([1, 2, 3]), 'k': k + 1} for k, d in enumerate(dates)]
                 base = rng.choice(dates)
                 d1, d2 = gen.same_instant(rng, base), gen.same_instant(rng, base)
                 shape = rng.choice(['eq', 'gte', 'in', 'lte'])
@@ -93,43 +112,66 @@ class Plugin(HistPlugin):
                 gen.DATE_MODE[0] = 'plain'
 
             def flt(d):
-                return {'eq': {'d': d}, 'gte': {'d': {'$gte': d}}, 'in': {'d': {'$in': [d]}},
-                        'lte': {'d': {'$lte': d}}}[shape]
+                return {'eq': {where: d}, 'gte': {where: {'$gte': d}}, 'in': {where: {'$in': [d]}},
+                        'lte': {where: {'$lte': d}}}[shape]
 
             def run(d, aware):
-                c = mongomock.MongoClient(tz_aware=aware).db.c
-                c.insert_many(copy.deepcopy(docs))
+                def fresh():
+                    c = mongomock.MongoClient(tz_aware=aware).db.c
+                    c.insert_many(copy.deepcopy(docs))
+                    return c
+                c = fresh()
                 out = {}
-                out['find_kw'] = [x['_id'] for x in c.find(flt(d), sort=[('r', 1), ('_id', 1)])]
-                out['find_chain'] = [x['_id'] for x in c.find(flt(d)).sort([('r', 1), ('_id', 1)])]
-                cur = c.find(flt(d)).sort([('r', 1), ('_id', 1)])
+                out['find_kw'] = [x['k'] for x in c.find(flt(d), sort=[('r', 1), ('k', 1)])]
+                out['find_chain'] = [x['k'] for x in c.find(flt(d)).sort([('r', 1), ('k', 1)])]
+                cur = c.find(flt(d)).sort([('r', 1), ('k', 1)])
                 try:
-                    out['index0'] = [cur[0]['_id']]
+                    out['index0'] = [cur[0]['k']]
                 except IndexError:
                     out['index0'] = []
                 out['count'] = c.count_documents(flt(d))
-                out['distinct'] = sorted(c.distinct('_id', flt(d)))
+                out['distinct'] = sorted(c.distinct('k', flt(d)))
+                out['update_many'] = c.update_many(flt(d), {'$set': {'m': 1}}).matched_count
+                out['update_one'] = c.update_one(flt(d), {'$set': {'m': 2}}).matched_count
+                c = fresh()
+                out['delete_many'] = c.delete_many(flt(d)).deleted_count
+                out['left_after_delete_many'] = c.count_documents({})
+                c = fresh()
+                out['delete_one'] = c.delete_one(flt(d)).deleted_count
+                out['left_after_delete_one'] = c.count_documents({})
+                c = fresh()
+                got = c.find_one_and_delete(flt(d))
+                out['fam_delete'] = 0 if got is None else 1
+                out['left_after_fam_delete'] = c.count_documents({})
                 return out
             aware = rng.random() < 0.5
             try:
                 a, b = run(d1, aware), run(d2, aware)
             except Exception as e:  # noqa
-                viol.append({'case': {'docs': common.to_jsonable(docs), 'd1': common.to_jsonable(d1), 'shape': shape},
+                viol.append({'case': {'docs': common.to_jsonable(docs), 'd1': common.to_jsonable(d1), 'shape': shape,
+                                      'where': where, 'tz_aware': aware},
                              'impl': {'raised': type(e).__name__},
-                             'failing_clause': 'a reading entry point raised on a datetime filter'})
+                             'failing_clause': 'a filter-taking entry point raised on a datetime filter'})
                 continue
             probes += 1
+            where_n[where] += 1
+            m = len(a['find_kw'])
+            one = min(1, m)
             ok = a == b and a['find_kw'] == a['find_chain'] and a['index0'] == a['find_kw'][:1] \
-                and a['count'] == len(a['find_kw']) and a['distinct'] == sorted(a['find_kw'])
+                and a['count'] == m and a['distinct'] == sorted(a['find_kw']) \
+                and a['update_many'] == m and a['update_one'] == one \
+                and a['delete_many'] == m and a['left_after_delete_many'] == len(docs) - m \
+                and a['delete_one'] == one and a['left_after_delete_one'] == len(docs) - one \
+                and a['fam_delete'] == one and a['left_after_fam_delete'] == len(docs) - one
             if not ok:
                 viol.append({'case': {'docs': common.to_jsonable(docs), 'd1': common.to_jsonable(d1),
-                                      'd2': common.to_jsonable(d2), 'shape': shape, 'tz_aware': aware},
+                                      'd2': common.to_jsonable(d2), 'shape': shape, 'where': where, 'tz_aware': aware},
                              'impl': {'first': a, 'second': b},
-                             'failing_clause': 'two filters denoting the same millisecond (or two reading entry '
-                                               'points) select different documents'})
+                             'failing_clause': 'two filters denoting the same millisecond (or two filter-taking '
+                                               'entry points) select different documents'})
                 if len(viol) >= 3:
                     break
-        return viol, {'query_consistency_probes': probes}
+        return viol, {'query_consistency_probes': probes, 'datetime_position': where_n}
 
     def first_ops(self, rng):
         return [{'op': 'clock', 't': rng.choice([0, 1234567, 999, 1000])}]
